@@ -24,7 +24,7 @@ CHECKS = {
          E1NOTE + "Scratch modules use language version go1.23 (per-iteration loop variables): the single known finding of C03 depends on that."),
  "C04": ("E1 diff-trace",
          "runtime differential monitor: range loops inside compiled generators vs Go's native range statement executing the same text on the reference coroutine; systematic kinds x forms x bodies x mutations",
-         "Exploration: systematic cross product of 18 collection kinds x 8 variable forms x 6 body shapes x mutations of the ranged collection (a PRNG subset of ~900 in the quick tier, all ~1300 in the thorough tier) + directed cases; full-trace equality, range expression evaluation counted.",
+         "Exploration: the whole systematic cross product (both tiers; ~2900 programs) of 48 collection kinds (strings, slices, arrays, maps, channels, integers incl. constants / typed constants / calls, literal conversions []rune(s) / []byte(s) / string(bs), defined and directional collection types, element types of every kind, and the kinds the compiler leaves native: pointer to array incl. nil, range over func) x up to 8 variable forms x 10 body shapes (yielding, native, in a closure, break/continue, nested, iteration variable updated, captured by closures ...) x mutations of the ranged collection, + directed cases; the thorough tier adds the other wrapping variant of every range expression and a second generator form; full-trace equality, range expression evaluation counted.",
          E1NOTE + "Multi-entry maps are compared as sorted multisets (map order is random)."),
  "C05": ("E1 diff-trace",
          "runtime monitor of delegating generator call graphs vs the reference coroutine (full interleaved trace incl. argument evaluation and delegate-side effects), plus metamorphic twins with the delegation spelled out as a range loop",
@@ -44,43 +44,43 @@ CHECKS = {
          E1NOTE),
  "C14": ("E5 schedules + race detector",
          "runtime monitor of per-iterator records under enumerated interleavings (solo record as oracle) and goroutine-parallel consumption under the Go race detector (GORACE log files, DATA RACE blocks counted and de-duplicated)",
-         "Exploration: 10 closed generators; all pairs x all 70 interleavings of 4 advances, PRNG triples x all interleavings of 3 (4) advances, PRNG 4-iterator schedules; 16 (64) goroutines x 40 (200) rounds x 3 (20) race-detector runs with PRNG Gosched; every iterator's record must equal its solo record, zero race reports, no panic; the evidence counts distinct schedules and distinct goroutine interleavings actually observed.",
+         "Exploration: 25 closed generator kinds (ONE generic generator at nine element types incl. three interface types; stateless loop VALUES kept in package variables; ranges over four different non-ASCII strings, slices, maps; recursion; closures; one raw term) + parents that yield child generators capturing their range variables (children consumed at once / deferred / reversed / round-robin); all pairs x all 70 interleavings of 4 advances, PRNG triples x all interleavings of 3 (4) advances, PRNG 4-iterator schedules; 16 (64) goroutines x 40 (200) rounds x 3 (20) race-detector runs with PRNG Gosched; every iterator's record must equal its solo record, zero race reports, no panic; the evidence counts distinct schedules and distinct goroutine interleavings actually observed.",
          ASSUME + "The race detector only speaks about interleavings that happened."),
  "C15": ("E6 determinism",
          "runtime monitor of output bytes across fresh compiler processes and perturbed configurations (byte comparison, sha256), helper-identifier uniqueness by parsing the outputs",
-         "Exploration: generated + repository source files compiled alone (repeated, GOMAXPROCS 1/4/16), among extra files, among other packages, as second Compile of a process, into pre-populated dst/dst_tmp, under a different root path; every generated file byte-identical to the first configuration.",
+         "Exploration: generated + repository source files compiled alone (repeated, GOMAXPROCS 1/4/16), among extra files, among other packages, as second Compile of a process, into pre-populated dst/dst_tmp (incl. a file only <dst>_tmp holds: nothing without a source may reach dst, a pre-existing <dst>_tmp must survive), under a different root path, after a rejected run, with unrelated in-package and external test files, with the file that declares shared constants / variables processed in the same run or not; every generated file byte-identical to the first configuration.",
          ASSUME + "Process-level nondeterminism (map seeds, scheduling) is sampled by repeated fresh processes."),
  "C16": ("E7 gogen-fs",
          "runtime monitor of the real cmd/cogen under `go generate`: directory snapshots (path, mode, sha256) of module root and parent before/after, strace file-syscall log (thorough), go build / go test / go vet -tags co, second-run snapshot",
-         "Exploration: 6 (thorough 40) module layouts; the snapshot difference must be exactly the expected derived files with the prescribed header; nothing else created, modified, deleted or left behind; package builds/tests/vets afterwards; second run byte-identical.",
+         "Exploration: 16 (thorough 50) module layouts (incl. types / constants of a sub-package generated in the same run, co test file only in a sub-package, directive only in a sub-package, a co file with a foreign generated-code header, a main package with a //go:debug directive that is run after generation, plain-sibling variables yielded by generators and observed by a plain test) and three history steps (edit the co file; edit a plain sibling; turn a constant of a generated sub-package into a variable), each compared with a generation from scratch; the snapshot difference must be exactly the expected derived files with the prescribed header; nothing else created, modified, deleted or left behind; package builds/tests/vets afterwards; second run byte-identical.",
          ASSUME + "Layouts are small synthetic packages; the go tool sets GOFILE etc. exactly as for a user."),
  "C17": ("E4 stack-depth",
          "runtime monitor: runtime.Callers depth sampled inside loop bodies/conditions of compiled generators and raw seq loops at iteration indices 2..n, one child process per configuration; bounded-growth oracle",
-         "Exploration: 15 loop configurations (all loop forms produced by the real compiler + raw seq.For/While/Loop/Combine terms) with a body that yields only on the last of 10^5 (thorough 10^6) iterations; depth(i) - depth(10) <= 16 frames; delegation chains d=1..24 (64): constant increment per level. 'For all n' is restated as bounded growth up to the stated n.",
+         "Exploration: 120 (thorough 400) PRNG loop nests of 1..6 levels x seven loop forms x decorations + 24 hand-written loop configurations (all loop forms produced by the real compiler + raw seq.For/While/Loop/Combine/BindRecv terms) with a body that yields only on the last of 10^5 (thorough 10^6) iterations; depth(i) - depth(10) <= 16 frames; delegation chains d=1..24 (64): constant increment per level. 'For all n' is restated as bounded growth up to the stated n.",
          ASSUME + "A finite run cannot decide the limit n -> infinity; growth rather than absolute depth is judged."),
  "C18": ("E1 diff-trace",
          "runtime monitor of panic attribution: every consumer call is wrapped in its own recover and logs where and with which value a panic surfaced; compared with the reference coroutine (iter.Pull propagates the body's panic out of the resuming call)",
-         "Exploration: directed cases (panic between yields, in yield arguments, loop conditions, for-post, switch tags, delegates, closures called after a yield, two live iterators) + PRNG programs with tape-guarded explicit and run-time panics at random statement positions; full-trace equality up to and including the panicking call.",
+         "Exploration: directed cases (panic between yields, in yield arguments, loop conditions, for-post, switch tags, delegates, closures called after a yield, two live iterators, behind natively left ranges, through blank assignments) + PRNG programs with tape-guarded explicit and run-time panics (incl. `_ = xs[i]`, `_ = *p`, `_ = v.(T)`, `_ = a/b`) at random statement positions; full-trace equality up to and including the panicking call.",
          E1NOTE + "Nothing is compared after the panicking call (the property does not specify it)."),
  "C12": ("E1 diff-trace (rejection outcomes)",
          "runtime monitor of compile outcomes and, when compilation succeeds, of the trace vs the reference coroutine in which the unsupported construct executes natively; a co.go trap overlay observes surviving Yield stub calls directly",
-         "Exploration: 18 unsupported constructs x up to 5 statement positions + signature cases + 7 negative controls, one real compiler invocation each; outcome classes rejected / unbuildable / equivalent are fine, divergent or STUB-YIELD is a violation; negative controls must be accepted and equivalent.",
+         "Exploration: 22 unsupported constructs x up to 5 statement positions + the API used as a value / in plain closures + signature cases + 12 negative controls + 200 (1400) PRNG injections, one real compiler invocation each; outcome classes rejected / unbuildable / equivalent are fine, divergent or STUB-YIELD is a violation; negative controls must be accepted and equivalent.",
          E1NOTE),
  "C13": ("E1 diff-trace (native source as reference)",
          "runtime differential monitor: the source package built natively vs the generated package on the same driver, result/effect traces; build of the generated package",
-         "Exploration: directed bystander declarations (closure shapes func(ps){return f(ps)} over every kind of callee, constants, initialisers, methods) co-located with generators; the natively built source is the oracle.",
+         "Exploration: directed bystander declarations (closure shapes func(ps){return f(ps)} over every kind of callee incl. generic seq functions with inferred type arguments and call-depth-sensitive standard functions, hand-written seq code with effectful arguments, constants, initialisers, methods, directives) co-located with generators + 150 (2000) PRNG bystanders; generators (G) and plain closures (P) nested into each other in every order up to depth 4; the scoping directed cases (closures / pointers of ordinary code inside generators); the natively built source (or the reference coroutine for code inside generators) is the oracle.",
          E1NOTE),
  "C08": ("E2 seq-model",
          "runtime differential monitor: real seq terms driven through the public API vs a big-step reference interpreter; bounded-exhaustive term enumeration + PRNG terms + metamorphic Combine laws",
-         "Exploration: all well-formed combinator terms up to 5 nodes (6 thorough) exhaustively plus 60k (1.5M) PRNG terms up to 30 nodes; the full interleaved event list (consumer call/return markers, thunk/cond/post evaluations, yields, final result) must equal the reference interpreter's, which decides every truncation point; associativity and unit laws on PRNG triples.",
+         "Exploration: all well-formed combinator terms up to 5 nodes (6 thorough) exhaustively plus 60k (1.5M) PRNG terms up to 30 nodes; every term is also started twice from ONE Seq value, sequentially and with the two iterators advanced alternately (each must equal the solo record); the full interleaved event list (consumer call/return markers, thunk/cond/post evaluations, yields, final result) must equal the reference interpreter's, which decides every truncation point; associativity and unit laws on PRNG triples.",
          ASSUME + "The ~60-line reference interpreter (probes/seqmodel) is the specification; only well-formed terms (Break/Continue under a loop) are generated."),
  "C09": ("E2 seq-model",
          "runtime monitor of call histories: exhaustive histories over {MoveNext, Current, Send, Result} vs a 3-state protocol model, return values + generator-side effect log",
-         "Exploration: every history of length <= 6 (8 thorough) over 5 operations x 24 generators (0..3 yields, Bind/BindRecv mixes, three ways to end, two infinite echo loops), exhaustively; every call's return value and the cumulative effect log are compared with the model.",
+         "Exploration: every history of length <= 6 (8 thorough) over 5 operations x 44 generators (0..3 yields, Bind/BindRecv mixes, ending by fall-off / Return / ReturnValue also from inside loops and from the first half of (nested) Combines, yield sites outside any Delay, generators that read Current() of their own iterator during an advance, two infinite echo loops), exhaustively; every call's return value and the cumulative effect log are compared with the model; every history of length <= 5 additionally on TWO iterators started from ONE Seq value and advanced alternately.",
          ASSUME + "The protocol model is written from the property text; Result is compared only after completion."),
  "C10": ("E3 iter-vs-native",
          "runtime differential monitor: seq.New*Iter driven with the compiler's protocol vs Go's native range in the same process, bounded-exhaustive inputs + mutation scripts",
-         "Exploration: every byte string up to length 5 (6 thorough) over a 10-byte alphabet with ASCII / multi-byte / invalid sequences, all small slices x mutation scripts, all small maps x delete/insert/update scripts, typed maps with nil interface keys/values and NaN, channels with nil elements, ints -3..64; the oracle is the native range statement executed on the same value.",
+         "Exploration: every byte string up to length 5 (6 thorough) over a 10-byte alphabet with ASCII / multi-byte / invalid sequences, all strings of length <= 2 over all 256 bytes, boundary bytes and valid edge runes (U+0000 .. U+10FFFF incl. U+FFFD) in every combination, typed integers at the limits of their types, 35 typed collections (defined map / slice / string / channel types, receive-only channels, elements of every kind) compared with %#v, channels with a second reader, all small slices x mutation scripts, all small maps x delete/insert/update scripts, typed maps with nil interface keys/values and NaN, channels with nil elements, ints -3..64; the oracle is the native range statement executed on the same value.",
          ASSUME + "Map order is random, so maps are judged by multiset equality and per-visit invariants."),
 }
 
